@@ -645,6 +645,11 @@ def run(ctx):
     n3, f3 = run_glue(ctx, model_ok, 12 if quick else 60)
     total += n3
     found |= f3
+    if not found:
+        from vlib import c10_keyexpr
+        n5, f5 = c10_keyexpr.run(ctx, 2 if quick else 10)
+        total += n5
+        found |= f5
     from vlib import c10_addr
     addr_ok = gen_err is None and (COQ / "C10" / "AddrTemplates.vo").exists() and (b["ok"] or "AddrTemplates" not in str(b.get("file", "")))
     n4, f4 = c10_addr.run(ctx, model_ok and addr_ok, 240 if quick else 2000)
@@ -662,7 +667,7 @@ def run(ctx):
     ctx.corr["evaluations"] = total
     ctx.corr["distinct_nontrivial"] = total
     ctx.corr["rule"] = ("distinct (declaration tree, evm) layouts + distinct (tree, evm, override file) + distinct (contract, config, "
-                        "write operation) storage diffs; all non-trivial (every case has >= 1 state variable)")
+                        "write operation) storage diffs + distinct (contract, config, HashMap write through a key expression) diffs; all non-trivial (every case has >= 1 state variable)")
     ctx.trusted += ["Coq 8.16.1 kernel + vm_compute",
                     "tools/vlib/py2coq.py + tools/vlib/c10_gen.py MethodTranslator (allocate_slot, ceil32, storage_size_in_words regenerated each run)",
                     "hand model coq/C10/Alloc.v of _allocate_layout_r/_allocate_with_overrides_r/export recursion and coq/C10/Layout.v of type sizes "
